@@ -73,6 +73,14 @@ pub fn render(s: &TypeSpec) -> Option<Rendered> {
         o.push_str("            o.check(got == exp, || format!(\"partial_cmp(value {i}, value {j}) = {:?}, lexicographic rank order says {:?}\", got, exp));\n");
     }
     o.push_str("        }\n    }\n");
+    // the very same object on both sides (aliasing must not change the answer)
+    o.push_str("    for (i, a) in xs.iter().enumerate() {\n        let Some(exp) = oracle_fields(a, a) else { continue };\n");
+    if has_ord {
+        o.push_str("        let got = Some(::core::cmp::Ord::cmp(a, a));\n");
+    } else {
+        o.push_str("        let got = ::core::cmp::PartialOrd::partial_cmp(a, a);\n");
+    }
+    o.push_str("        o.check(got == exp, || format!(\"value {i} compared with itself (same object): {:?}, field order says {:?}\", got, exp));\n        o.tally(\"self_comparisons\", 1);\n    }\n");
     if has_ord && !lawless {
         // total (pre)order laws over same-variant triples
         o.push_str("    for (i, a) in xs.iter().enumerate() {\n");
@@ -130,8 +138,8 @@ pub fn behaviour() -> Behaviour {
         cfg,
         adjust: no_adjust,
         render,
-        quick: 400,
-        thorough: 8000,
+        quick: 1500,
+        thorough: 20000,
         batch: 25,
         assumptions: &["m_cmp_rev / m_pcmp_rev reverse the order so swapped arguments are visible; m_pcmp_none and Inc/f32 produce None"],
     }
